@@ -12,6 +12,7 @@ import (
 	"bufio"
 	"flag"
 	"fmt"
+	"io"
 	"math"
 	"os"
 	"runtime/debug"
@@ -96,6 +97,12 @@ type hist struct {
 	fails []string
 	// stats
 	st *stats
+	// C18: a freshly initialised twin block that receives every operation issued after this block became
+	// empty; an emptied block must answer exactly like it
+	twin    *hist
+	isTwin  bool
+	lastRes string
+	lastObs obs
 }
 
 type stats struct {
@@ -833,6 +840,25 @@ func (h *hist) exec(p op) {
 	h.st.results[p.kind+":"+strings.Fields(res)[1]]++
 	after := h.observe()
 	h.emitObs(after)
+	h.lastRes, h.lastObs = res, after
+	if h.isTwin {
+		return
+	}
+	if h.twin != nil {
+		t := h.twin
+		t.exec(p)
+		if t.lastRes != res || t.lastObs.s != after.s || t.lastObs.l != after.l || t.lastObs.v != after.v ||
+			t.lastObs.st != after.st || t.lastObs.ds != after.ds || t.lastObs.it != after.it {
+			h.fail("C18", h.c.algo+":emptied-differs-from-fresh", fmt.Sprintf("%s: emptied block %q / %s, fresh block %q / %s", p.String(), res, after.s, t.lastRes, t.lastObs.s))
+			h.twin = nil
+		}
+	}
+	if len(h.live) == 0 && !panicked && (p.kind == "C" || p.kind == "F" && res == "R ok") {
+		// the block has just been emptied: from here on a fresh block runs alongside
+		t := newHist(h.c, bufio.NewWriter(io.Discard), newStats())
+		t.isTwin, t.nextK, t.step = true, h.nextK, h.step
+		h.twin = t
+	}
 
 	// ---- oracles on this step
 	if panicked {
